@@ -282,7 +282,7 @@ def check(run):
     prog = Program()
     run.explanation = 'visited-guard rule over descent sites; traversal call counts on the maximal-sharing DAG family; loop iteration counts of the parsers on adversarial count/length fields.'
     run.rule('D1a', 'every descent over `.refs` (recursive call or work-list push) in the BoC code is control-dependent on a first-visit membership test; printing exempt; construction-time hashing does not recurse', 1)
-    run.rule('D1b', 'traversal calls for ordering / serialising / hashing / comparing the n-cell maximal-sharing chain grow at most linearly in n (n = 6, 10, 14, 18)', 4)
+    run.rule('D1b', 'traversal calls for ordering / serialising / hashing / comparing the n-cell maximal-sharing chain grow at most linearly in n (n = 6, 10, 14, 18)', 6)
     run.rule('D2', 'no loop of the BoC / TL parsers runs more than 8 x len(input) + 64 iterations when a count or length field is set to its maximum on a short input', 10)
     run.rule('D2s', 'every loop whose bound is derived from the input bytes is known and covered by an adversarial scenario', 3)
     run.trust('CPython ast', 'checker interpreter (call and loop counters)', 'sa/bocspec.py encoder')
@@ -331,6 +331,10 @@ def check(run):
         'Cell.hash / get_depth / ==': lambda it, c: (it.getattr(c, 'hash'), cm.call_method(it, c, 'get_depth', K(0)), it.cmp(ast.Eq(), c, c, None)),
         'Cell.copy / begin_parse / to_cell': lambda it, c: cm.call_method(it, cm.call_method(it, cm.call_method(it, c, 'copy'), 'begin_parse'), 'to_cell'),
         'Cell.from_boc(to_boc)': None,
+        # the same DAG held in two sets of objects (two parses of one bag, a bag that was not de-duplicated): equality and hashing
+        # must not unfold it either
+        'Cell == equal DAG in other objects': 'pair-eq',
+        'Cell.to_boc of a root over two equal DAGs in distinct objects': 'pair-boc',
     }
     sizes = (6, 10, 14, 18)
     for name, op in ops.items():
@@ -347,6 +351,16 @@ def check(run):
                 if op is None:
                     raw, _ = bocspec.encode([sharing_chain(n)])
                     it.call(it.getattr(prog.cls('Cell'), 'from_boc'), [K(raw)], {})
+                elif op in ('pair-eq', 'pair-boc'):
+                    other = bocrun.build(it, sharing_chain(n))        # equal content, different objects
+                    it.calls.clear()
+                    if op == 'pair-eq':
+                        r = it.cmp(ast.Eq(), root, other, None)
+                        it.truth(r)
+                    else:
+                        top2 = cm.new_cell(it, cm.tvm_bits(it, BA([Seg(4, 'k', '1001')])), [root, other])
+                        it.calls.clear()
+                        cm.call_method(it, top2, 'to_boc')
                 else:
                     op(it, root)
             except Fail as e:
